@@ -23,6 +23,32 @@ from .values import (Alloc, Arr, Op, Unsupported, is_num, is_scalar, simplify_sc
 from .extlib import arr_valfn, MinMax
 
 MAX_COMP = 4
+CELL_LIMIT = 150     # above this many decomposition cells per launch, boundary-band cells are
+                     # abstracted to their dependence sets (the deep-interior cell stays exact)
+
+_DEPS = {}
+
+
+def dep_symbol(names):
+    names = frozenset(names)
+    nm = "DEP{%s}" % ",".join(sorted(names))
+    _DEPS[nm] = names
+    return psym(nm)
+
+
+def deps_of(expr):
+    """names of the array versions an expression depends on"""
+    out = set()
+    for a in expr.all_atoms():
+        if a[0] == "f":
+            out.add(a[1])
+        elif a[0] == "s" and a[1] in _DEPS:
+            out |= _DEPS[a[1]]
+    return out
+
+
+def is_abstract(expr):
+    return any(a[0] == "s" and a[1] in _DEPS for a in expr.all_atoms())
 
 
 class StoreProblem:
@@ -43,6 +69,149 @@ class Piece:
 
     def __repr__(self):
         return "%r -> %r" % (self.box, self.expr)
+
+
+class Grid:
+    """content of one array component on a rectilinear decomposition: per-axis sorted cut
+    points (first = 0, last = extent) and one expression per cell"""
+
+    def __init__(self, full, expr):
+        self.full = full
+        self.cuts = [[lo, hi] for lo, hi in full.iv]
+        self.cells = {(0,) * full.rank: expr}
+
+    @property
+    def rank(self):
+        return self.full.rank
+
+    def _pos(self, axis, b):
+        """index i with cuts[i] == b, inserting a cut if needed"""
+        c = self.cuts[axis]
+        for i, x in enumerate(c):
+            s = cmp(b, x)
+            if s == 0:
+                return i
+            if s < 0:
+                if i == 0:
+                    raise Unsupported("write below the array start: %r" % (b,))
+                c.insert(i, b)
+                new = {}
+                for idx, e in self.cells.items():
+                    j = idx[axis]
+                    if j < i - 1:
+                        new[idx] = e
+                    elif j == i - 1:
+                        new[idx] = e
+                        new[idx[:axis] + (i,) + idx[axis + 1:]] = e
+                    else:
+                        new[idx[:axis] + (j + 1,) + idx[axis + 1:]] = e
+                self.cells = new
+                return i
+        raise Unsupported("write beyond the array end: %r > %r" % (b, c[-1]))
+
+    def write_many(self, items):
+        """items: list of (Box, expr); later items win"""
+        for box, _ in items:
+            for k, (lo, hi) in enumerate(box.iv):
+                self._pos(k, lo)
+                self._pos(k, hi)
+        for box, e in items:
+            rng = []
+            for k, (lo, hi) in enumerate(box.iv):
+                a, b = self._pos(k, lo), self._pos(k, hi)
+                rng.append(range(a, b))
+            for idx in itertools.product(*rng):
+                self.cells[idx] = e
+
+    def write(self, box, expr):
+        self.write_many([(box, expr)])
+
+    def locate(self, axis, lo, hi):
+        """index of the cell interval containing [lo, hi) or None if it straddles a cut"""
+        c = self.cuts[axis]
+        for i in range(len(c) - 1):
+            if le(c[i], lo) and le(hi, c[i + 1]):
+                return i
+        return None
+
+    def lookup(self, box):
+        idx = []
+        for k, (lo, hi) in enumerate(box.iv):
+            i = self.locate(k, lo, hi)
+            if i is None:
+                raise Unsupported("box %r straddles a content boundary" % (box,))
+            idx.append(i)
+        return self.cells[tuple(idx)]
+
+    def simplify(self):
+        """drop cuts across which nothing changes"""
+        for axis in range(self.rank):
+            i = 1
+            while i < len(self.cuts[axis]) - 1:
+                same = True
+                for idx, e in self.cells.items():
+                    if idx[axis] == i - 1:
+                        o = self.cells[idx[:axis] + (i,) + idx[axis + 1:]]
+                        if o is not e and not e.struct_eq(o):
+                            same = False
+                            break
+                if same:
+                    del self.cuts[axis][i]
+                    new = {}
+                    for idx, e in self.cells.items():
+                        j = idx[axis]
+                        if j < i:
+                            new[idx] = e
+                        elif j > i:
+                            new[idx[:axis] + (j - 1,) + idx[axis + 1:]] = e
+                    self.cells = new
+                else:
+                    i += 1
+
+    def boxes(self):
+        for idx, e in self.cells.items():
+            yield Box([(self.cuts[k][i], self.cuts[k][i + 1]) for k, i in enumerate(idx)]), e
+
+    def pieces(self):
+        """disjoint (Box, expr) list, neighbouring cells with identical expressions merged"""
+        return [Piece(b, e) for b, e in merge_cells(list(self.boxes()))]
+
+    def copy(self):
+        g = Grid.__new__(Grid)
+        g.full = self.full
+        g.cuts = [list(c) for c in self.cuts]
+        g.cells = dict(self.cells)
+        return g
+
+
+def merge_cells(cells):
+    changed = True
+    while changed:
+        changed = False
+        for i in range(len(cells)):
+            for j in range(i + 1, len(cells)):
+                (ba, ea), (bb, eb) = cells[i], cells[j]
+                if (ea is None) != (eb is None) or (ea is not None and ea is not eb and not ea.struct_eq(eb)):
+                    continue
+                diff = [k for k in range(ba.rank) if not (ba.iv[k][0] == bb.iv[k][0] and ba.iv[k][1] == bb.iv[k][1])]
+                if len(diff) != 1:
+                    continue
+                k = diff[0]
+                if ba.iv[k][1] == bb.iv[k][0]:
+                    iv = list(ba.iv)
+                    iv[k] = (ba.iv[k][0], bb.iv[k][1])
+                elif bb.iv[k][1] == ba.iv[k][0]:
+                    iv = list(ba.iv)
+                    iv[k] = (bb.iv[k][0], ba.iv[k][1])
+                else:
+                    continue
+                cells[i] = (Box(iv), ea)
+                del cells[j]
+                changed = True
+                break
+            if changed:
+                break
+    return cells
 
 
 def comp_rank(alloc):
@@ -126,7 +295,7 @@ def shift_expr(e, delta, pins=None):
                 o = offs[k]
                 if k in pins:
                     if isinstance(o, int):
-                        offs[k] = ("a", pins[k] + o)
+                        offs[k] = ("a", (bound(pins[k]) + o).poly())
                 elif isinstance(o, int):
                     d = delta[k]
                     if not isinstance(d, int):
@@ -139,9 +308,9 @@ def shift_expr(e, delta, pins=None):
     for k in range(rank):
         at = ("s", "@%d" % k)
         if k in pins:
-            sub[at] = pins[k]
+            sub[at] = bound(pins[k]).poly()
         elif not (isinstance(delta[k], int) and delta[k] == 0):
-            sub[at] = Poly.atom(at) + (delta[k] if isinstance(delta[k], int) else delta[k])
+            sub[at] = Poly.atom(at) + (delta[k] if isinstance(delta[k], int) else bound(delta[k]).poly())
     if sub and any(a in e.all_atoms() for a in sub):
         e = e.subs(sub)
     return e
@@ -191,12 +360,12 @@ class Store:
             try:
                 e = alloc.valfn(idx)
                 if isinstance(e, PW):
-                    return [Piece(fb, e)]
+                    return Grid(fb, e)
             except Unsupported:
                 pass
         name = self.vname(key, 0)
         self.defs.setdefault(name, {"kind": "init", "key": key, "alloc": alloc})
-        return [Piece(fb, poly.fld(name, (0,) * rank))]
+        return Grid(fb, poly.fld(name, (0,) * rank))
 
     def get(self, key):
         if key not in self.content:
@@ -208,78 +377,49 @@ class Store:
 
     # ------------------------------------------------------------------ reading
     def lookup(self, key, box):
-        """expr of the topmost piece containing box (box in alloc grid coords)"""
-        pieces = self.get(key)
-        for p in reversed(pieces):
-            inter = p.box.intersect(box)
-            if inter.is_empty():
-                continue
-            if p.box.contains(box):
-                return p.expr
-            raise Unsupported("box %r straddles piece %r of %s" % (box, p.box, self.base_name(key)))
-        raise Unsupported("no content for %r in %s" % (box, self.base_name(key)))
+        """expr of the cell containing box (box in alloc grid coords)"""
+        try:
+            return self.get(key).lookup(box)
+        except Unsupported as ex:
+            raise Unsupported("%s in %s" % (ex, self.base_name(key)))
 
     def cuts_for(self, key, axis):
-        out = []
-        for p in self.get(key):
-            out.extend(p.box.iv[axis])
-        return out
+        return self.get(key).cuts[axis]
+
+    def pieces(self, key):
+        return self.get(key).pieces()
 
     # ------------------------------------------------------------------ writing
     def write(self, key, box, expr):
         if box.is_empty():
             return
-        pieces = self.get(key)
-        # drop pieces fully covered
-        pieces = [p for p in pieces if not box.contains(p.box)]
-        pieces.append(Piece(box, expr))
-        self.content[key] = pieces
+        self.get(key).write(box, expr)
+
+    def write_many(self, key, items):
+        items = [(b, e) for b, e in items if not b.is_empty()]
+        if items:
+            self.get(key).write_many(items)
 
     def merge(self, key):
-        """merge adjacent pieces with identical expressions (keeps painter's order semantics by
-        only merging the last-written run)"""
-        pieces = self.content.get(key)
-        if not pieces or len(pieces) < 2:
-            return
-        changed = True
-        while changed:
-            changed = False
-            n = len(pieces)
-            for i in range(n - 1, 0, -1):
-                for j in range(i - 1, -1, -1):
-                    a, b = pieces[j], pieces[i]
-                    if a.expr != b.expr:
-                        continue
-                    m = _mergeable(a.box, b.box)
-                    if m is None:
-                        continue
-                    # only safe if no piece between j and i overlaps the merged box differently
-                    if any(not pieces[k].box.intersect(m).is_empty() for k in range(j + 1, i)):
-                        continue
-                    # and nothing after i overlaps a.box part (those would have been hidden anyway)
-                    pieces[i] = Piece(m, b.expr)
-                    del pieces[j]
-                    changed = True
-                    break
-                if changed:
-                    break
-        self.content[key] = pieces
+        g = self.content.get(key)
+        if g is not None:
+            g.simplify()
 
     def checkpoint(self, keys=None, tag=None):
         """freeze the current contents of the given keys under new version names"""
         out = []
         for key in (keys if keys is not None else list(self.content)):
-            pieces = self.get(key)
+            pieces = self.pieces(key)
             alloc, comp, part = self.meta[key]
             fb = full_box(alloc)
-            if len(pieces) == 1 and pieces[0].box == fb and _is_single_atom(pieces[0].expr):
+            if len(pieces) == 1 and _is_single_atom(pieces[0].expr):
                 continue
             v = self.version.get(key, 0) + 1
             self.version[key] = v
             name = self.vname(key, v)
             self.defs[name] = {"kind": "stage", "key": key, "alloc": alloc, "pieces": pieces, "tag": tag}
             self.def_order.append(name)
-            self.content[key] = [Piece(fb, poly.fld(name, (0,) * fb.rank))]
+            self.content[key] = Grid(fb, poly.fld(name, (0,) * fb.rank))
             out.append(name)
         return out
 
@@ -307,7 +447,7 @@ class Store:
                 key = self.key(vi.alloc, comp, part)
                 vb = vi.box()
                 ps = []
-                for p in self.get(key):
+                for p in self.pieces(key):
                     b = p.box.intersect(vb)
                     if not b.is_empty():
                         ps.append(Piece(b, p.expr))
@@ -432,8 +572,35 @@ class Store:
                         pts.append(p)
             cuts.append(sort_bounds(pts))
         new_pieces = []
-        for cell in itertools.product(*[list(zip(c[:-1], c[1:])) for c in cuts]):
+        all_cells = list(itertools.product(*[list(zip(c[:-1], c[1:])) for c in cuts]))
+        abstract_far = len(all_cells) > CELL_LIMIT
+        core = interior_point(it) if abstract_far else None
+        for cell in all_cells:
             sub = {}
+            if abstract_far and not Box(cell).contains(core):
+                # boundary-band cell of an iterated stencil: keep only what it depends on
+                deps = set()
+                for f, off, vi, key in acc_info:
+                    iv = []
+                    vax = vi.view_grid_axes()
+                    for ax, (lo, hi, isv) in enumerate(vi.grid):
+                        if isv:
+                            j = vax.index(ax)
+                            o = off[ncv + j]
+                            iv.append((cell[j][0] + lo + o, cell[j][1] + lo + o))
+                        else:
+                            iv.append((lo, hi))
+                    deps |= deps_of(self.lookup(key, Box(iv)))
+                iv = []
+                for ax, (lo, hi, isv) in enumerate(vo.grid):
+                    if isv:
+                        j = vaxes_o.index(ax)
+                        iv.append((cell[j][0] + lo, cell[j][1] + lo))
+                    else:
+                        iv.append((lo, hi))
+                # an expression without field dependence would be a constant we do not track here
+                new_pieces.append((Box(iv), dep_symbol(deps)))
+                continue
             for f, off, vi, key in acc_info:
                 # box in the alloc coords of this array
                 iv = []
@@ -466,8 +633,7 @@ class Store:
                 else:
                     iv.append((lo, hi))
             new_pieces.append((Box(iv), val))
-        for b, v in new_pieces:
-            self.write(okey, b, v)
+        self.write_many(okey, new_pieces)
         self.merge(okey)
 
     def reexpress(self, e, vi_src, vi_dst, off):
@@ -542,10 +708,6 @@ class Store:
         raise Unsupported("slice assignment from %r" % (src,))
 
     def apply_aug_scalar(self, key, box, aug, val):
-        for p in list(self.get(key)):
-            b = p.box.intersect(box)
-            if b.is_empty():
-                continue
         raise Unsupported("augmented scalar slice assignment")
 
     def assign_from_array(self, vd, dst, src, op):
@@ -626,8 +788,7 @@ class Store:
         for dkey, new in results:
             if op.aug:
                 raise Unsupported("augmented slice assignment from array")
-            for b, e in new:
-                self.write(dkey, b, e)
+            self.write_many(dkey, new)
             self.merge(dkey)
 
     # ---- element assignment
@@ -696,7 +857,7 @@ class Store:
             for part in parts:
                 key = self.key(vi.alloc, comp, part)
                 name, atom = self.new_ext("numpy:" + fn, key, ins, op, {"meta": op.meta, "args": op.args})
-                self.content[key] = [Piece(full_box(al), atom)]
+                self.content[key] = Grid(full_box(al), atom)
 
     def elementwise(self, op):
         out = op.out
@@ -747,7 +908,7 @@ class Store:
                 else:
                     val = _scalar_op(op.fn, vals)
                 new.append((Box(cell), val))
-            self.content[okey] = [Piece(b, e) for b, e in new]
+            self.get(okey).write_many(new)
             self.merge(okey)
         return True
 
@@ -776,8 +937,8 @@ class Store:
             tot = pconst(0)
             for key in keys:
                 tot = tot + self.lookup(key, Box(cell))
-            new.append(Piece(Box(cell), tot))
-        self.content[okey] = new
+            new.append((Box(cell), tot))
+        self.get(okey).write_many(new)
         self.merge(okey)
         return True
 
@@ -831,10 +992,10 @@ def _is_single_atom(e):
 
 def _slice_bound(b, n, is_lo):
     if b is None:
-        return Poly.const(0) if is_lo else n
+        return bound(0) if is_lo else n
     b = simplify_scalar(b)
     if isinstance(b, int):
-        return n + b if b < 0 else Poly.const(b)
+        return n + b if b < 0 else bound(b)
     return bound(b)
 
 
@@ -876,3 +1037,82 @@ def _scalar_op(name, vals):
     if name == "sqrt":
         return poly.fn("sqrt", vals[0])
     raise Unsupported("scalar op %s" % name)
+
+
+# ---------------------------------------------------------------------------- queries
+def visible(pieces, full):
+    """disjoint cover of `full` by (Box, expr): the topmost piece of every cell"""
+    cuts = []
+    for k in range(full.rank):
+        pts = [full.iv[k][0], full.iv[k][1]]
+        for p in pieces:
+            for b in p.box.iv[k]:
+                if lt(full.iv[k][0], b) and lt(b, full.iv[k][1]):
+                    pts.append(b)
+        cuts.append(sort_bounds(pts))
+    cells = []
+    for cell in itertools.product(*[list(zip(c[:-1], c[1:])) for c in cuts]):
+        cb = Box(cell)
+        e = None
+        for p in reversed(pieces):
+            if p.box.contains(cb):
+                e = p.expr
+                break
+        cells.append((cb, e))
+    # greedy merge of neighbouring cells with equal expressions
+    changed = True
+    while changed:
+        changed = False
+        for i in range(len(cells)):
+            for j in range(i + 1, len(cells)):
+                (ba, ea), (bb, eb) = cells[i], cells[j]
+                if (ea is None) != (eb is None) or (ea is not None and not ea.struct_eq(eb)):
+                    continue
+                diff = [k for k in range(ba.rank) if not (ba.iv[k][0] == bb.iv[k][0] and ba.iv[k][1] == bb.iv[k][1])]
+                if len(diff) != 1:
+                    continue
+                k = diff[0]
+                if ba.iv[k][1] == bb.iv[k][0]:
+                    iv = list(ba.iv)
+                    iv[k] = (ba.iv[k][0], bb.iv[k][1])
+                elif bb.iv[k][1] == ba.iv[k][0]:
+                    iv = list(ba.iv)
+                    iv[k] = (bb.iv[k][0], ba.iv[k][1])
+                else:
+                    continue
+                cells[i] = (Box(iv), ea)
+                del cells[j]
+                changed = True
+                break
+            if changed:
+                break
+    return cells
+
+
+def interior_point(full):
+    """a box of one cell deep in the interior (n/2 on every axis)"""
+    iv = []
+    for lo, hi in full.iv:
+        mid = (lo + hi).scale(Fraction(1, 2))
+        iv.append((mid, mid + 1))
+    return Box(iv)
+
+
+def expr_at(pieces, box):
+    for p in reversed(pieces):
+        if p.box.contains(box):
+            return p.expr
+    return None
+
+
+def compose(outer, inner):
+    """substitute every field atom ('f', name, off) of `outer` whose name is in `inner`
+    by inner[name] shifted by off"""
+    sub = {}
+    for a in outer.all_atoms():
+        if a[0] == "f" and a[1] in inner:
+            off = a[2]
+            if not all(isinstance(o, int) for o in off):
+                raise Unsupported("compose through an absolute offset")
+            sub[a] = shift_expr(inner[a[1]], list(off))
+    return outer.subs(sub) if sub else outer
